@@ -1,8 +1,10 @@
 // C08 — alert state survives restart: no lost or phantom level after recovery.
 //
 // Generator: alert configurations (levels with resets, stateChangesOnly, noRecoveries; a named
-// topic, optionally also a handler of the node itself = anonymous topic) x histories of 5-30
-// points over 1-3 alert IDs. Fault enumeration: the harness-owned storage takes a snapshot of the
+// topic, optionally also a handler of the node itself = anonymous topic, or only such a handler =
+// anonymous topic alone; the default alert ID or an .id() template over the measurement, the task
+// name, the group and tags of the points that are or are not group-by dimensions) x histories of
+// 5-30 points over 1-3 alert IDs. Fault enumeration: the harness-owned storage takes a snapshot of the
 // Bolt file after every committed update of the topic store; for every snapshot (crash point) a
 // fresh service + TaskMaster + task is opened on it and fed the remaining points.
 // Oracle: restored state == what the snapshot holds; the events of the second run equal the
@@ -11,6 +13,7 @@
 package c08
 
 import (
+	"bytes"
 	"encoding/json"
 	"fmt"
 	"os"
@@ -42,6 +45,11 @@ type Case struct {
 	SCO      bool     `json:"sco"`
 	NoRec    bool     `json:"norec"`
 	Anon     bool     `json:"anon"` // the alert also has a handler of its own (anonymous topic)
+	// NoTopic: the alert has no .topic(): its handler of its own (Anon is set) and the anonymous
+	// topic are all there is; events are then observed through that handler (the log file)
+	NoTopic bool `json:"notopic,omitempty"`
+	// IDForm selects the alert ID: 0 = default ({{ .Name }}:{{ .Group }}), else idTemplates[IDForm]
+	IDForm int `json:"idform,omitempty"`
 	Groups   int      `json:"groups"`
 	Pts      []P      `json:"pts"`
 	ResumeAt []int    `json:"resumeat"` // per crash point: which of the admissible resume positions (mod range)
@@ -52,7 +60,7 @@ type Case struct {
 	BetweenKind string `json:"between_kind,omitempty"`
 }
 
-const rule = "rapid: alert config (info/warn/crit thresholds + resets, stateChangesOnly, noRecoveries, named topic, optional anonymous topic) x 5-30 points over 1-3 IDs; every storage commit boundary of the topic store is a crash point (snapshot of the Bolt file), followed by restart and continuation from a generated admissible resume position; " +
+const rule = "rapid: alert config (info/warn/crit thresholds + resets, stateChangesOnly, noRecoveries; named topic, named + anonymous topic, or anonymous topic alone; default ID or an .id() template over .Name/.TaskName/.Group/.Tags incl. tags that are not group-by dimensions) x 5-30 points over 1-3 IDs; every storage commit boundary of the topic store is a crash point (snapshot of the Bolt file), followed by restart and continuation from a generated admissible resume position; " +
 	"oracle: restored state == snapshot, run-2 events == reference state machine from the restored level, final topic state == uninterrupted run, no silent miss; non-trivial = some crash point lies between a non-OK persist and a later level change of the same ID; distinct by case hash"
 
 const sec = int64(1e9)
@@ -62,6 +70,15 @@ var lvlName = [4]string{"OK", "INFO", "WARNING", "CRITICAL"}
 var lvlProp = [4]string{"", "info", "warn", "crit"}
 
 func gen(t *rapid.T) Case {
+	c := genCfg(t)
+	for i := 0; i < 64; i++ {
+		c.ResumeAt = append(c.ResumeAt, rapid.IntRange(0, 7).Draw(t, "resume"))
+	}
+	return c
+}
+
+// genCfg draws the alert configuration and the history (shared with unit TaskRestart).
+func genCfg(t *rapid.T) Case {
 	var c Case
 	mask := rapid.IntRange(1, 7).Draw(t, "mask")
 	for l := 1; l <= 3; l++ {
@@ -75,21 +92,32 @@ func gen(t *rapid.T) Case {
 	}
 	c.SCO = rapid.IntRange(0, 3).Draw(t, "sco") != 0
 	c.NoRec = rapid.IntRange(0, 4).Draw(t, "norec") == 0
-	c.Anon = rapid.Bool().Draw(t, "anon")
+	switch rapid.IntRange(0, 5).Draw(t, "topics") {
+	case 0, 1:
+	case 2, 3, 4:
+		c.Anon = true
+	case 5:
+		c.Anon, c.NoTopic = true, true
+	}
+	// forms 2-4 use a tag that is not a group-by dimension
+	c.IDForm = rapid.SampledFrom([]int{0, 0, 0, 1, 2, 2, 3, 3, 4}).Draw(t, "idform")
 	c.Groups = rapid.IntRange(1, 3).Draw(t, "groups")
 	n := rapid.IntRange(5, 30).Draw(t, "n")
 	for i := 0; i < n; i++ {
 		c.Pts = append(c.Pts, P{G: rapid.IntRange(0, c.Groups-1).Draw(t, "g"), Gap: int64(rapid.IntRange(1, 3).Draw(t, "gap")), V: int64(rapid.IntRange(0, 12).Draw(t, "v"))})
-	}
-	for i := 0; i < 64; i++ {
-		c.ResumeAt = append(c.ResumeAt, rapid.IntRange(0, 7).Draw(t, "resume"))
 	}
 	return c
 }
 
 func (c Case) script(logPath string) string {
 	var s strings.Builder
-	s.WriteString("stream|from().measurement('m').groupBy('host')|alert().topic('T')")
+	s.WriteString("stream|from().measurement('m').groupBy('host')|alert()")
+	if !c.NoTopic {
+		s.WriteString(".topic('T')")
+	}
+	if c.IDForm != 0 {
+		fmt.Fprintf(&s, ".id('%s')", idTemplates[c.IDForm])
+	}
 	for l := 1; l <= 3; l++ {
 		if c.Levels[l] >= 0 {
 			fmt.Fprintf(&s, ".%s(lambda: \"v\" > %d)", lvlProp[l], c.Levels[l])
@@ -115,13 +143,42 @@ func (c Case) points() []kit.Pt {
 	var pts []kit.Pt
 	for i, p := range c.Pts {
 		t += p.Gap * sec
-		pts = append(pts, kit.Pt{Name: "m", DB: "db", RP: "rp", Tags: map[string]string{"host": fmt.Sprintf("h%d", p.G)},
+		// "dc" and "rack" are not group-by dimensions; every point of a host carries the same values
+		// (two hosts may share a dc, a rack belongs to one host)
+		pts = append(pts, kit.Pt{Name: "m", DB: "db", RP: "rp", Tags: map[string]string{"host": fmt.Sprintf("h%d", p.G), "dc": fmt.Sprintf("d%d", p.G%2), "rack": fmt.Sprintf("r%d", p.G)},
 			Fields: map[string]kit.FV{"v": kit.I(p.V), "n": kit.I(int64(i))}, Time: t})
 	}
 	return pts
 }
 
-func idOf(p kit.Pt) string { return "m:host=" + p.Tags["host"] }
+// idTemplates are the .id() templates of the generator (index = Case.IDForm; 0 = no .id()).
+// Documented template data (pipeline/alert.go, ID): Name = measurement, TaskName, Group =
+// group-by tags as key=value, Tags = map of tags. In every form the ID is a one-to-one function
+// of the group (every point of a host carries the same dc and rack).
+var idTemplates = []string{
+	"",
+	`{{ index .Tags "host" }}`,
+	`{{ index .Tags "dc" }}/{{ index .Tags "host" }}`,
+	`{{ .Name }}-{{ index .Tags "rack" }}`,
+	`{{ .TaskName }}|{{ .Group }}|{{ index .Tags "dc" }}`,
+}
+
+const taskName = "task"
+
+// idOf is the alert ID of the events of point p.
+func (c Case) idOf(p kit.Pt) string {
+	switch c.IDForm {
+	case 1:
+		return p.Tags["host"]
+	case 2:
+		return p.Tags["dc"] + "/" + p.Tags["host"]
+	case 3:
+		return p.Name + "-" + p.Tags["rack"]
+	case 4:
+		return taskName + "|host=" + p.Tags["host"] + "|" + p.Tags["dc"]
+	}
+	return p.Name + ":host=" + p.Tags["host"]
+}
 
 // ---------------------------------------------------------------- reference state machine
 
@@ -160,7 +217,7 @@ func (c Case) model(pts []kit.Pt, from int, states map[string]*idState) []event 
 	var evs []event
 	for i := from; i < len(pts); i++ {
 		p := pts[i]
-		id := idOf(p)
+		id := c.idOf(p)
 		st := states[id]
 		if st == nil {
 			st = &idState{}
@@ -251,8 +308,13 @@ func readStore(path string) (map[string]map[string]storedState, error) {
 		return nil, err
 	}
 	defer db.Close()
+	return readStoreDB(db)
+}
+
+// readStoreDB reads the persisted event states from an open Bolt file.
+func readStoreDB(db *bolt.DB) (map[string]map[string]storedState, error) {
 	out := map[string]map[string]storedState{}
-	err = db.View(func(tx *bolt.Tx) error {
+	err := db.View(func(tx *bolt.Tx) error {
 		root := tx.Bucket([]byte(topicNS))
 		if root == nil {
 			return nil
@@ -319,7 +381,9 @@ func runOnce(c Case, dir string, pts []kit.Pt, from int, snapshots bool, cc *kit
 		},
 		Prepare: func(e *kit.Env) {
 			envp = e
-			e.Alert.RegisterAnonHandler("T", h)
+			if !c.NoTopic {
+				e.Alert.RegisterAnonHandler("T", h)
+			}
 		}})
 	if err != nil {
 		cc.Fail("harness/env", "env: %v", err)
@@ -329,7 +393,7 @@ func runOnce(c Case, dir string, pts []kit.Pt, from int, snapshots bool, cc *kit
 	db = env.Store.DB
 	// what the services restored from the file, before any point is fed
 	res.restored = map[string]map[string]storedState{}
-	et, err := env.StartTask("task", c.script(filepath.Join(dir, "alert.log")), kapacitor.StreamTask, nil)
+	et, err := env.StartTask(taskName, c.script(filepath.Join(dir, "alert.log")), kapacitor.StreamTask, nil)
 	if err != nil {
 		cc.Fail("harness/script-rejected", "script rejected: %v\n%s", err, c.script("x"))
 		return nil, false
@@ -364,7 +428,50 @@ func runOnce(c Case, dir string, pts []kit.Pt, from int, snapshots bool, cc *kit
 		}
 	}
 	res.handler = h.get()
+	if c.NoTopic {
+		// no named topic: the events are those the alert's own handler wrote (all of them are
+		// written when the task has ended: closing the anonymous topic closes its handlers)
+		evs, err := readLog(filepath.Join(dir, "alert.log"))
+		if err != nil {
+			cc.Fail("harness/log", "reading the alert log: %v", err)
+			return nil, false
+		}
+		res.handler = evs
+	}
 	return res, true
+}
+
+func (c Case) observer() string {
+	if c.NoTopic {
+		return "the alert's own handler (.log(), anonymous topic)"
+	}
+	return "the handler of topic T"
+}
+
+// readLog returns the events a .log() handler wrote to path (one JSON alert.Data per line).
+func readLog(path string) ([]event, error) {
+	data, err := os.ReadFile(path)
+	if os.IsNotExist(err) {
+		return nil, nil
+	}
+	if err != nil {
+		return nil, err
+	}
+	var evs []event
+	dec := json.NewDecoder(bytes.NewReader(data))
+	for dec.More() {
+		var ad struct {
+			ID            string      `json:"id"`
+			Time          time.Time   `json:"time"`
+			Level         alert.Level `json:"level"`
+			PreviousLevel alert.Level `json:"previousLevel"`
+		}
+		if err := dec.Decode(&ad); err != nil {
+			return nil, err
+		}
+		evs = append(evs, event{ID: ad.ID, Level: int(ad.Level), Time: ad.Time.UnixNano(), Prev: int(ad.PreviousLevel)})
+	}
+	return evs, nil
 }
 
 func fmtEvents(evs []event) string {
@@ -398,11 +505,18 @@ func run(c Case, cc *kit.Case) {
 		return
 	}
 	defer os.RemoveAll(dir)
-	if c.Anon {
+	switch {
+	case c.NoTopic && !c.Anon:
+		cc.Fail("harness/case", "a case without a named topic needs the anonymous one")
+		return
+	case c.NoTopic:
+		cc.Label("anon-topic-only")
+	case c.Anon:
 		cc.Label("anon+named-topic")
-	} else {
+	default:
 		cc.Label("named-topic-only")
 	}
+	cc.Label(fmt.Sprintf("id-form:%d", c.IDForm))
 	if c.SCO {
 		cc.Label("stateChangesOnly")
 	}
@@ -421,7 +535,7 @@ func run(c Case, cc *kit.Case) {
 		return
 	}
 	perEvent := 1
-	if c.Anon {
+	if c.Anon && !c.NoTopic {
 		perEvent = 2
 	}
 	if r1.commits != len(full)*perEvent {
@@ -434,7 +548,7 @@ func run(c Case, cc *kit.Case) {
 	for k := 1; k <= r1.commits && k <= len(r1.collected); k++ {
 		e := (k - 1) / perEvent
 		which, name := 0, "T"
-		if c.Anon && k%2 == 1 {
+		if c.NoTopic || c.Anon && k%2 == 1 {
 			which, name = 1, "the anonymous topic"
 		}
 		if r1.collected[k-1][which] < int64(e+1) {
@@ -492,6 +606,10 @@ func run(c Case, cc *kit.Case) {
 			}
 		}
 		named, anon := stored["T"], stored[r1.anonTopic]
+		if c.NoTopic {
+			// the anonymous topic is the only one: its record is "the" record
+			named = anon
+		}
 		// ---- the level each ID resumes at, per the property: the last recorded non-OK level
 		// (anonymous topic wins over the named one when both hold a state, as restoreEvent documents)
 		ids := map[string]bool{}
@@ -501,7 +619,7 @@ func run(c Case, cc *kit.Case) {
 		for id := range anon {
 			ids[id] = true
 		}
-		between := c.Anon && k%2 == 1
+		between := c.Anon && !c.NoTopic && k%2 == 1
 		sigPrefix := "restart/"
 		if between {
 			// the event whose anonymous-topic commit is on file and whose named-topic commit is not
@@ -519,7 +637,7 @@ func run(c Case, cc *kit.Case) {
 				// the two topics are reconciled when the ID's next point arrives
 				later := false
 				for _, p := range pts[resume:] {
-					if idOf(p) == ev.ID {
+					if c.idOf(p) == ev.ID {
 						later = true
 					}
 				}
@@ -596,7 +714,7 @@ func run(c Case, cc *kit.Case) {
 			}
 		}
 		if !sameEvents(r2.handler, exp2, false) {
-			cc.Fail(sigPrefix+"events-differ", "after the restart the handler of topic T received %s, the reference (state machine started from the restored levels) says %s\n%s", fmtEvents(r2.handler), fmtEvents(exp2), where)
+			cc.Fail(sigPrefix+"events-differ", "after the restart %s received %s, the reference (state machine started from the restored levels) says %s\n%s", c.observer(), fmtEvents(r2.handler), fmtEvents(exp2), where)
 			return
 		}
 		// no silent miss: every ID whose final level differs from what handlers were last told got an event with that level
@@ -631,7 +749,7 @@ func run(c Case, cc *kit.Case) {
 		if !c.NoRec {
 			for id, st := range finalModel {
 				got, has := r2.final[id]
-				if st.cur != 0 && (!has || got != st.cur) || st.cur == 0 && has && got != 0 {
+				if !c.NoTopic && (st.cur != 0 && (!has || got != st.cur) || st.cur == 0 && has && got != 0) {
 					// points in [lastPt+1, resume) were consumed before the crash without a commit: they did not change any level
 					cc.Fail(sigPrefix+"final-state", "final state of topic T after crash+restart: %s=%v(present=%v), uninterrupted run ends at %s\n%s", id, got, has, lvlName[st.cur], where)
 					return
@@ -687,6 +805,8 @@ var assumptions = []string{
 	"durations after a restart are not compared (the property does not state them)",
 	"noRecoveries: the withheld OK event is never recorded, so the final stored state is not compared with the uninterrupted run",
 	"level lambdas are thresholds over an integer field that every point carries; stream tasks",
+	"alert IDs: the default or an .id() template over the documented template data (pipeline/alert.go: Name, TaskName, Group, Tags = map of tags); the ID of an event is rendered from the point that caused it, with all of its tags (alertState.Point; the model's IDs are checked against the uninterrupted run first); the tags a template uses have one value per group, so group and ID correspond one to one - 'every alert ID resumes' is then about exactly the IDs on record, whether or not the template's tags are group-by dimensions",
+	"alert without .topic() (anonymous topic alone): the events are read from the file its .log() handler wrote, after the task has ended (closing the anonymous topic closes its handlers, which drains them); the anonymous topic's record is the record; one commit per event",
 }
 
 func TestRestart(t *testing.T) {
